@@ -1838,3 +1838,41 @@ def scan_progress(ctx):
                 ctx.ok(key, f.loc(h), 'every round passes one of %d assignment(s) %s = %s - x with x >= 1' % (len(dec_blocks), f.local_name(v), f.local_name(v)))
     if not n:
         ctx.anchor_missing('position-bounded scan loops in LZIPReaderMT')
+
+
+# --------------------------------------------------------------------------- DICT-BYTE-COVERS
+
+@rule('DICT-BYTE-COVERS', ['C02', 'C19'], floor=1)
+def dict_byte_covers(ctx):
+    """The LZIP header byte encodes the dictionary size as 2^b minus f sixteenths of 2^b. The size it announces must
+    not be smaller than the window the encoder really uses (the reader allocates what the header says; a match beyond
+    it is "dist overflow"). With base = 2^b >= dict_size and diff = base - dict_size, the number of sixteenths taken
+    away has to be rounded DOWN: f = diff / unit (integer division). Any rounding up (`div_ceil`, `(diff + unit - 1) /
+    unit`, `next_multiple_of`) announces less than dict_size for every size that is not exactly representable."""
+    F = ctx.facts
+    fs = [f for f in F.fns if f.key in ('lzip::encode_dict_size',) or (f.name == 'encode_dict_size' and f.file == 'src/lzip.rs')]
+    if not fs:
+        ctx.anchor_missing('lzip::encode_dict_size')
+        return
+    f = fs[0]
+    key = '%s:fraction-rounded-down' % f.key
+    prov = Prov(f)
+    ups = [(bi, c.name) for bi, t, c in f.calls() if c.name in ('div_ceil', 'next_multiple_of', 'checked_next_multiple_of')]
+    divs = []
+    for b in sorted(f.reachable):
+        for si, s in enumerate(f.blocks[b]['stmts']):
+            if s['k'] == 'assign' and s['rv']['r'] == 'bin' and s['rv']['op'] == 'Div':
+                e = prov.rvalue(s['rv'], 0, '%d:%d' % (b, si))
+                divs.append((b, e))
+    # a division whose dividend adds (divisor - 1): rounding up by hand
+    manual = [(b, e) for b, e in divs if any(x[0] == 'bin' and x[1].startswith('Add') for x in expr_walk(e[2])) and
+              expr_str(e[3]) in expr_str(e[2])]
+    if ups or manual:
+        where = ups[0][0] if ups else manual[0][0]
+        ctx.violation(key, f.loc(where), 'the number of sixteenths subtracted from the base size is rounded up (%s): the header byte announces a dictionary '
+                      'smaller than the one in use for every size that is not exactly representable (5000 -> 4608); a match beyond the announced '
+                      'size makes the member undecodable' % (ups[0][1] if ups else 'add-then-divide'))
+    elif divs:
+        ctx.ok(key, f.loc(divs[0][0]), '%d integer division(s), none rounds up' % len(divs))
+    else:
+        ctx.violation(key, f.loc(0), 'cannot find the division that computes the fraction (anchor lost, fail closed)')
